@@ -254,9 +254,11 @@ GSET = dict(proc_internals=True, display=["public", "private", "protected"])
 
 def _rel_files(calls, uses, exts, comps):
     return {
-        "a.f90": ["module m1", uses[0], "contains", "subroutine sa()", calls[0], "end subroutine sa", "end module m1"],
-        "b.f90": ["module m2", uses[1], "contains", "subroutine sb()", calls[1], "end subroutine sb", "end module m2"],
-        "c.f90": ["module m3", uses[2], "contains", "subroutine sc()", calls[2], "end subroutine sc", "end module m3"],
+        "a.f90": ["module m1", uses[0], "integer :: i1", "end module m1"],
+        "b.f90": ["module m2", uses[1], "integer :: i2", "end module m2"],
+        "c.f90": ["module m3", uses[2], "integer :: i3", "end module m3"],
+        "p.f90": ["module mp", "contains", "subroutine sa()", calls[0], "end subroutine sa", "subroutine sb()", calls[1], "end subroutine sb",
+                  "subroutine sc()", calls[2], "end subroutine sc", "end module mp"],
         "t.f90": ["module mt", "type :: ta", "integer :: x", "end type ta", exts[0], comps[0], "end type tb",
                   exts[1], comps[1], "end type tc", "end module mt"],
     }
@@ -302,14 +304,8 @@ def rel_rule(calls, uses, exts, comps):
     cs = dict(zip(("sa", "sb", "sc"), calls))
     us = dict(zip(("m1", "m2", "m3"), uses))
     ex = {"ta": None, "tb": exts[0], "tc": exts[1]}
-    # a procedure of module mK is only visible from another module through USE: sX lives in mX
-    home = {"sa": "m1", "sb": "m2", "sc": "m3"}
     def callee(caller, c):
-        if c is None:
-            return None
-        if c == caller:
-            return c
-        return c if us[home[caller]] == home[c] else None
+        return c  # all three procedures live in one module: every call resolves
     for k in cs:
         t = callee(k, cs[k])
         out[f"calls({k})"] = [t] if t else []
@@ -337,61 +333,74 @@ def replay_rel(w):
     return bool(diff), {"files": _rel_files(*w["slots"]), "differences (ford, declared)": diff}
 
 
-@obligation("C13", "O2.node-constructors-both-directions", engine="SX(CV)", timeout=3000)
-def constructors(ctx):
-    """graph nodes built by the real constructors from a symbolic project: calls/called_by, uses/used_by, ancestor/children and
-    comp_types/comp_of are exactly the declared relation and its inverse"""
-    import io, contextlib
-    import ford.graphs as gr
+def _constructors_ob(name, vary):
+    @obligation("C13", "O2.node-constructors." + name, engine="SX(CV)", timeout=3000)
+    def ob(ctx):
+        import io, contextlib
+        import ford.graphs as gr
 
-    for c in (gr.ModNode, gr.ProcNode, gr.TypeNode):
-        ctx.encode_fn(c.__init__, c.__name__ + ".__init__")
-    ctx.encode_fn(gr.get_call_nodes)
-    ctx.encode_fn(gr.GraphData.register)
-    quick = not ctx.thorough
-    ctx.bounds.update({"call options": len(CALL_OPTS), "use options": len(USE_OPTS), "extends options": len(EXT_OPTS), "component options": len(COMP_OPTS)})
+        for c in (gr.ModNode, gr.ProcNode, gr.TypeNode):
+            ctx.encode_fn(c.__init__, c.__name__ + ".__init__")
+        ctx.encode_fn(gr.get_call_nodes)
+        ctx.encode_fn(gr.GraphData.register)
+        ctx.bounds.update({"symbolic": vary, "call options": len(CALL_OPTS), "use options": len(USE_OPTS), "extends options": len(EXT_OPTS),
+                           "component options": len(COMP_OPTS)})
 
-    def h(E):
-        calls = [_CV.choice(E, f"call{i}", CALL_OPTS[:4] if quick else CALL_OPTS) for i in range(3)]
-        uses = [_CV.choice(E, f"use{i}", USE_OPTS[:3] if quick and i else USE_OPTS) for i in range(3)]
-        exts = [_CV.choice(E, f"ext{i}", [(t.replace("{n}", nm), m_) for t, m_ in (EXT_OPTS[:3] if quick else EXT_OPTS)]) for i, nm in enumerate(("tb", "tc"))]
-        comps = [_CV.choice(E, f"comp{i}", COMP_OPTS[:3] if quick else COMP_OPTS) for i in range(2)]
-        # module USE relations are acyclic in valid Fortran
-        def acyclic(a, b, c):
-            us = {"m1": a, "m2": b, "m3": c}
-            for start in us:
-                seen_, cur = set(), start
-                while cur is not None and cur not in seen_:
-                    seen_.add(cur)
-                    cur = us.get(cur)
-                if cur is not None:
-                    return False
-            return True
-        E.assume(_choice.apply(acyclic, uses[0][1], uses[1][1], uses[2][1]))
-        # tb cannot extend itself; no extension cycle
-        E.assume(_choice.apply(lambda a, b: a != "tb" and not (a == "tc"), exts[0][1], exts[1][1]))
-        E.e.snapshot = lambda m: {"slots": [[_choice.value_in_model(m, x)[0] for x in grp] for grp in (calls, uses, exts, comps)],
-                                  "expected": _choice.value_in_model(m, h.want)}
-        h.want = _choice.apply(lambda *v: rel_rule(v[0:3], v[3:6], v[6:8], v[8:10]), *[x[1] for x in calls + uses + exts + comps])
-        with contextlib.redirect_stdout(io.StringIO()), contextlib.redirect_stderr(io.StringIO()):
-            p = _parserh.project(_rel_files([x[0] for x in calls], [x[0] for x in uses], [x[0] for x in exts], [x[0] for x in comps]), **GSET)
-            from fv import patch as _patch
-            with _patch.patched(gr, extra=_parserh.helper_patches()):
-                got = _observe_rel(p)
-        E.reachable("built")
-        for k in sorted(got):
-            E.require(_choice.apply(lambda g, w_, k=k: g == w_[k], got[k], h.want), f"{k}: differs from the declared relation")
+        def pick(E, nm, opts, group):
+            if group in vary:
+                return _CV.choice(E, nm, opts)
+            return opts[0]  # the neutral option
 
-    E = sym.Engine(ctx, max_paths=300000, incremental=True)
-    found = E.explore(h)
-    seen = set()
-    for (label, m, pc), snap in zip(found, E.snapshots):
-        if label in seen:
-            continue
-        seen.add(label)
-        ctx.report(label, snap, replay_rel)
-    if E.reached.get("built"):
-        ctx.twins += 1
-    else:
-        ctx.inconclusive.append("vacuity: no graph data built")
-    ctx.sample({"paths": E.paths})
+        def h(E):
+            calls = [pick(E, f"call{i}", CALL_OPTS, "calls") for i in range(3)]
+            # calls across modules need the USE: when only calls vary every module uses the next one (acyclic)
+            uses = [pick(E, f"use{i}", USE_OPTS, "uses") for i in range(3)]
+            exts = [pick(E, f"ext{i}", [(t.replace("{n}", nm), m_) for t, m_ in EXT_OPTS], "types") for i, nm in enumerate(("tb", "tc"))]
+            comps = [pick(E, f"comp{i}", COMP_OPTS, "types") for i in range(2)]
+
+            def acyclic(a, b, c):
+                us = {"m1": a, "m2": b, "m3": c}
+                for start in us:
+                    seen_, cur = set(), start
+                    while cur is not None and cur not in seen_:
+                        seen_.add(cur)
+                        cur = us.get(cur)
+                    if cur is not None:
+                        return False
+                return True
+            E.assume(_choice.apply(acyclic, uses[0][1], uses[1][1], uses[2][1]))
+            E.assume(_choice.apply(lambda a, b: a != "tb" and not (a == "tc"), exts[0][1], exts[1][1]))
+            allv = calls + uses + exts + comps
+            h.want = _choice.apply(lambda *v: rel_rule(v[0:3], v[3:6], v[6:8], v[8:10]), *[x[1] for x in allv])
+            E.e.snapshot = lambda m: {"slots": [[_choice.value_in_model(m, x)[0] for x in grp] for grp in (calls, uses, exts, comps)],
+                                      "expected": _choice.value_in_model(m, h.want)}
+            with contextlib.redirect_stdout(io.StringIO()), contextlib.redirect_stderr(io.StringIO()):
+                p = _parserh.project(_rel_files([x[0] for x in calls], [x[0] for x in uses], [x[0] for x in exts], [x[0] for x in comps]), **GSET)
+                from fv import patch as _patch
+                with _patch.patched(gr, extra=_parserh.helper_patches()):
+                    got = _observe_rel(p)
+            E.reachable("built")
+            for k in sorted(got):
+                E.require(_choice.apply(lambda g, w_, k=k: g == w_[k], got[k], h.want), f"{k}: differs from the declared relation")
+
+        E = sym.Engine(ctx, max_paths=300000, incremental=True)
+        found = E.explore(h)
+        seen = set()
+        for (label, m, pc), snap in zip(found, E.snapshots):
+            if label in seen:
+                continue
+            seen.add(label)
+            ctx.report(label, snap, replay_rel)
+        if E.reached.get("built"):
+            ctx.twins += 1
+        else:
+            ctx.inconclusive.append("vacuity: no graph data built")
+        ctx.sample({"paths": E.paths})
+
+    ob.__doc__ = ("graph nodes built by the real constructors from a symbolic project (varying " + ", ".join(vary) + "): calls/called_by, "
+                  "uses/used_by, ancestor/children and comp_types/comp_of are exactly the declared relation and its inverse")
+
+
+_constructors_ob("calls", ("calls",))
+_constructors_ob("uses", ("uses",))
+_constructors_ob("types", ("types",))
